@@ -205,7 +205,7 @@ pub struct Caps {
 pub fn legacy_ok(p: &P) -> bool {
     match p {
         P::Done | P::Event(_) | P::Notify(_) | P::Req(_) | P::Stream(_) | P::ReqReq(..) | P::Join(..)
-        | P::Select(..) | P::Burst(..) | P::SpawnAfter(..) => true,
+        | P::Select(..) | P::Burst(..) | P::SpawnAfter(..) | P::HandOff(..) => true,
         P::Trigger(_, q) => legacy_ok(q),
         P::And(a, b) => legacy_ok(a) && legacy_ok(b),
         P::All(v) => v.iter().all(legacy_ok),
@@ -307,6 +307,35 @@ pub fn run_legacy(p: &P, caps: &Caps) {
                     futures::future::Either::Left((v, _)) => a.update_app(Event::got(s, v)),
                     futures::future::Either::Right((w, _)) => a.update_app(Event::got(t, w)),
                 }
+            });
+        }
+        P::HandOff(s, t, u) => {
+            let (a, b) = (ca.clone(), cb.clone());
+            ca.spawn(async move {
+                let owned = |site: S| {
+                    let (a, b) = (a.clone(), b.clone());
+                    Box::pin(async move { lreq(&a, &b, site, 0).await })
+                };
+                match futures::future::select(owned(s), owned(t)).await {
+                    futures::future::Either::Left((v, rest)) => {
+                        a.update_app(Event::got(s, v));
+                        let a2 = a.clone();
+                        a.spawn(async move {
+                            let w = rest.await;
+                            a2.update_app(Event::got(t, w));
+                        });
+                    }
+                    futures::future::Either::Right((w, rest)) => {
+                        a.update_app(Event::got(t, w));
+                        let a2 = a.clone();
+                        a.spawn(async move {
+                            let v = rest.await;
+                            a2.update_app(Event::got(s, v));
+                        });
+                    }
+                }
+                let x = lreq(&a, &b, u, 0).await;
+                a.update_app(Event::got(u, x));
             });
         }
         P::Burst(m, s) => {
